@@ -1,11 +1,15 @@
 (* C12 property theorems: ONLY statements closed by `exact`, each followed by Print Assumptions. *)
 From Coq Require Import List Ascii ZArith NArith Bool.
-From DuneV Require Import C12_Model C12_Spec C12_Proofs C12_Proofs_Int C12_Proofs_Tree C12_Proofs_Lex C12_Proofs_Frame C12_Proofs_Opt.
+From DuneV Require Import C12_Model C12_Spec C12_Proofs C12_Proofs_Int C12_Proofs_Tree C12_Proofs_Lex C12_Proofs_Frame C12_Proofs_Opt C12_Proofs_Order.
 Import ListNotations.
 Local Open Scope char_scope.
 
+(* The first argument of c12_parse_ini / c12_parse_ini_lines selects the comment search of readINITree:
+   false = the code as found (line cut at its first '#', F-C12-3), true = with fixes/C12-3.patch.
+   Every theorem below holds for both. *)
+
 (* readINITree never loops: for all input bytes, trees and overwrite modes (fuel = #lines + 1) *)
-Theorem C12_total : forall doc pt ow, c12_ir_status (c12_parse_ini doc pt ow) <> C12OutOfFuel.
+Theorem C12_total : forall qhash doc pt ow, c12_ir_status (c12_parse_ini qhash doc pt ow) <> C12OutOfFuel.
 Proof. exact c12_total. Qed.
 Print Assumptions C12_total.
 
@@ -93,15 +97,15 @@ Print Assumptions C12_frame.
    header names without ] ; plain values tight, without #, not starting with a quote; quoted values:
    no # on their first line, and no line break directly after (quote, blanks) inside the value.
    Stated on line lists and on the bytes of the document. *)
-Theorem C12_roundtrip : forall ls pt ow,
+Theorem C12_roundtrip : forall qhash ls pt ow,
   forallb c12_sline_ok ls = true ->
-  c12_ts (c12_parse_ini_lines (flat_map c12_render_sline ls) pt ow) = c12_store_all (c12_sdoc_assigns ls []) pt [] ow.
+  c12_ts (c12_parse_ini_lines qhash (flat_map c12_render_sline ls) pt ow) = c12_store_all (c12_sdoc_assigns ls []) pt [] ow.
 Proof. exact c12_roundtrip. Qed.
 Print Assumptions C12_roundtrip.
-Theorem C12_roundtrip_bytes : forall ls pt ow,
+Theorem C12_roundtrip_bytes : forall qhash ls pt ow,
   forallb c12_sline_ok ls = true ->
   forallb (c12_nochar "010") (flat_map c12_render_sline ls) = true ->
-  c12_ts (c12_parse_ini (c12_join_lines (flat_map c12_render_sline ls)) pt ow) =
+  c12_ts (c12_parse_ini qhash (c12_join_lines (flat_map c12_render_sline ls)) pt ow) =
   c12_store_all (c12_sdoc_assigns ls []) pt [] ow.
 Proof. exact c12_roundtrip_bytes. Qed.
 Print Assumptions C12_roundtrip_bytes.
@@ -114,7 +118,7 @@ Example C12_roundtrip_nonvacuous :
   forallb (c12_nochar "010") (flat_map c12_render_sline ls) = true /\
   c12_sdoc_assigns ls [] = [(["g"; "."; "a"; "."; "b"], ["1"; " "; "2"]); (["g"; "."; "q"], [" "; "x"; " "]);
                             (["g"; "."; "m"], ["u"; "010"; "#"; "v"; "010"; "w"])] /\
-  c12_lookup (c12_ir_tree (c12_parse_ini (c12_join_lines (flat_map c12_render_sline ls)) c12_empty true)) [["g"]; ["m"]]
+  c12_lookup (c12_ir_tree (c12_parse_ini false (c12_join_lines (flat_map c12_render_sline ls)) c12_empty true)) [["g"]; ["m"]]
     = Some ["u"; "010"; "#"; "v"; "010"; "w"].
 Proof. vm_compute. repeat split; reflexivity. Qed.
 
@@ -172,19 +176,75 @@ Theorem C12_options_dangling : forall kvs k pt,
 Proof. exact c12_options_dangling. Qed.
 Print Assumptions C12_options_dangling.
 
-(* readNamedOptions, positional part (overwrite allowed): arguments that are neither --name=value nor a help
-   request go to the keywords in order; more arguments than keywords: "superfluous"; fewer than the required
-   number: "missing".  The named part (--name=value, unknown / already specified) is covered by the
-   correspondence (spec oracle c12_spec_named_only) only. *)
-Theorem C12_options_positional_partial : forall args kw required am pt,
+(* C12_options_positional, full statement: for ALL argument vectors, keyword lists, trees and flags readNamedOptions
+   is the documented mapping c12_spec_read_named of C12_Spec.v: -h/--help is the help request; --name=value
+   stores value under name ("value missing" without '=', "unknown parameter" if name is no keyword and more are not
+   allowed); any other argument goes to the FIRST KEYWORD THAT HAS NOT RECEIVED A VALUE YET ("superfluous" if
+   there is none) -- the code's advancing cursor is proved to be exactly that; storing fails with "already
+   specified" when overwriting is not allowed and a non-empty value exists; finally each of the first
+   `required` keywords must have received a value ("missing"). *)
+Theorem C12_options_positional : forall args pt kw required am ow,
+  c12_read_named_options args pt kw required am ow = c12_spec_read_named args pt kw required am ow.
+Proof. exact c12_read_named_spec. Qed.
+Print Assumptions C12_options_positional.
+Example C12_options_positional_nonvacuous :
+  c12_read_named_options [["-";"-";"b";"=";"2"]; ["x"]; ["y"]] c12_empty [["a"]; ["b"]; ["c"]] 3 false false
+  = (fst (c12_set_all [(["b"],["2"]); (["a"],["x"]); (["c"],["y"])] c12_empty), C12Ok) /\
+  snd (c12_read_named_options [["x"]; ["y"]] c12_empty [["a"]] 1 false true) = C12ParserError /\
+  snd (c12_read_named_options [["-";"-";"z";"=";"1"]] c12_empty [["a"]] 0 false true) = C12ParserError /\
+  snd (c12_read_named_options [["-";"-";"a";"=";"1"]; ["-";"-";"a";"=";"2"]] c12_empty [["a"]] 0 true false) = C12ParserError /\
+  snd (c12_read_named_options [["-";"h"]] c12_empty [] 0 true true) = C12HelpRequest.
+Proof. vm_compute. repeat split; reflexivity. Qed.
+
+(* corollary: only positional arguments, overwrite allowed: keywords in order, "superfluous", "missing" *)
+Theorem C12_options_positional_only : forall args kw required am pt,
   forallb c12_plain_arg args = true ->
   c12_read_named_options args pt kw required am true = c12_spec_named_positional args kw required pt.
 Proof. exact c12_named_positional. Qed.
-Print Assumptions C12_options_positional_partial.
+Print Assumptions C12_options_positional_only.
 
 (* ---------------------------------------------------------------- F-C12-2 *)
 (* "for all documents the line machine never evaluates *(rtrim(value).rbegin()) on an empty string" is refuted *)
 Theorem C12_no_undefined_read_refuted :
-  exists doc, c12_ir_ub (c12_parse_ini doc c12_empty true) = true.
+  forall qhash, exists doc, c12_ir_ub (c12_parse_ini qhash doc c12_empty true) = true.
 Proof. exact c12_undefined_read_reachable. Qed.
 Print Assumptions C12_no_undefined_read_refuted.
+
+(* ---------------------------------------------------------------- key order *)
+
+(* C12_key_order: a source read into the empty tree (either overwrite mode): at EVERY node getValueKeys and
+   getSubKeys are exactly the spec's lists -- the keys written directly below / further below that node, in
+   order of first appearance *)
+Theorem C12_key_order : forall kvs ow t' pr,
+  c12_store_all kvs c12_empty [] ow = (t', C12Ok) ->
+  let d := map (fun kv : c12_str * c12_str => (c12_path (fst kv), snd kv)) kvs in
+  c12_vkeys t' pr = c12_spec_value_keys d pr /\ c12_skeys t' pr = c12_spec_sub_keys d pr.
+Proof. exact c12_key_order. Qed.
+Print Assumptions C12_key_order.
+(* ... and into any pre-existing tree: the old key lists followed by the newly created keys in order of
+   first appearance (c12_push l new = l ++ first occurrences of new that are not in l) *)
+Theorem C12_key_order_any_tree : forall kvs t seen ow t' pr,
+  c12_store_all kvs t seen ow = (t', C12Ok) ->
+  c12_vkeys t' pr = c12_push (c12_vkeys t pr) (flat_map (fun kv => c12_vcand pr (c12_path (fst kv))) kvs) /\
+  c12_skeys t' pr = c12_push (c12_skeys t pr) (flat_map (fun kv => c12_scand pr (c12_path (fst kv))) kvs).
+Proof. exact c12_store_all_keys. Qed.
+Print Assumptions C12_key_order_any_tree.
+Example C12_key_order_nonvacuous :
+  let kvs := [(["b";".";"x"],["1"]); (["a"],["2"]); (["b";".";"y"],["3"]); (["c";".";"d";".";"e"],[]); (["b";".";"x"],["4"])] in
+  exists t', c12_store_all (firstn 4 kvs) c12_empty [] true = (t', C12Ok) /\
+             c12_vkeys t' [] = [["a"]] /\ c12_skeys t' [] = [["b"]; ["c"]] /\ c12_vkeys t' [["b"]] = [["x"]; ["y"]].
+Proof. eexists. vm_compute. repeat split; reflexivity. Qed.
+
+(* ---------------------------------------------------------------- F-C12-3 *)
+(* a '#' inside a quoted value: the code as found cuts the value there and swallows the following line;
+   with fixes/C12-3.patch both keys map to their written values *)
+Theorem C12_hash_in_quoted_refuted :
+  let t := c12_ir_tree (c12_parse_ini false c12_hash_doc c12_empty true) in
+  c12_lookup t [["x"]] <> Some ["a"; "#"; "b"] /\ c12_lookup t [["y"]] = None.
+Proof. exact c12_hash_in_quoted_asfound. Qed.
+Print Assumptions C12_hash_in_quoted_refuted.
+Theorem C12_hash_in_quoted_repaired :
+  let t := c12_ir_tree (c12_parse_ini true c12_hash_doc c12_empty true) in
+  c12_lookup t [["x"]] = Some ["a"; "#"; "b"] /\ c12_lookup t [["y"]] = Some ["1"].
+Proof. exact c12_hash_in_quoted_repaired. Qed.
+Print Assumptions C12_hash_in_quoted_repaired.
